@@ -152,8 +152,9 @@ Definition wf_ss (s : session_state) : bool :=
   (llen (ss_certs s) <? 65536) && forallb (wf_str 0 4294967296) (ss_certs s).
 
 Definition wf_any (mt : Z) (flag : bool) (f : list val) : bool :=
-  if mt =? 1 then match ch_of f with Some m => wf_ch m | None => false end
-  else if mt =? 2 then match sh_of f with Some m => wf_sh m | None => false end
+  (* for the two hellos the value must also be in canonical wire form (booleans encoded as 0/1) *)
+  if mt =? 1 then match ch_of f with Some m => wf_ch m && val_eqb (VL (ch_fields m)) (VL f) | None => false end
+  else if mt =? 2 then match sh_of f with Some m => wf_sh m && val_eqb (VL (sh_fields m)) (VL f) | None => false end
   else if mt =? 3 then
     match f with
     | [c] => match as_LB c with
@@ -214,3 +215,13 @@ Definition prop_C45 (i o : val) : bool :=
   end.
 
 Definition kf_C45 (i : val) : Z := 0.
+
+(* well-formed harness inputs: a known message id and, for a round-trip case, decodable fields *)
+Definition valid_mt (mt : Z) : bool := existsb (Z.eqb mt) [1; 2; 3; 4; 5; 7; 8; 9; 10; 11; 12; 13].
+Definition wf_C45 (i : val) : bool :=
+  match i with
+  | VL [VZ 1; VZ mt; VZ flag; VL f] =>
+    valid_mt mt && match marshal_any mt (negb (flag =? 0)) f with Some _ => true | None => false end
+  | VL [VZ 2; VZ mt; VZ _; VB _] => valid_mt mt
+  | _ => false
+  end.
